@@ -422,8 +422,38 @@ def r3_read(ctx, repo, cls):
                 rebuild.append(TR_.expand(c.args[0], at=s_))
     ok = bool(rebuild) and text(rebuild[0]).startswith("json.loads(") and any(
         (access_path(c.func) or "").endswith(".problem.individuals.append") for c in calls_in(fn))
-    ctx.check3(True if ok else None, "R3", C, where(mod, fn), "individuals rebuilt through Individual.from_dict(json.loads(payload)) and appended to problem.individuals",
-               unknown_detail="reconstruction of the individuals not recognised", key="rebuild")
+    # the decoder is the plain inverse of json.dumps only without hooks: a hook that rewrites values changes what is read back
+    hook_bad = hook_unknown = None
+    if ok and isinstance(rebuild[0], ast.Call):
+        for kw_ in rebuild[0].keywords:
+            if kw_.arg == "parse_constant":
+                # called with the tokens 'NaN', 'Infinity', '-Infinity' (what json.dumps writes for non-finite floats)
+                v_ = kw_.value
+                table = None
+                if isinstance(v_, ast.Attribute) and v_.attr in ("get", "__getitem__"):
+                    tb = v_.value
+                    tnode = cls.class_attrs.get(tb.attr) if isinstance(tb, ast.Attribute) else None
+                    if isinstance(tnode, ast.Dict) and all(isinstance(k_, ast.Constant) for k_ in tnode.keys):
+                        table = {k_.value: text(x_) for k_, x_ in zip(tnode.keys, tnode.values)}
+                if table is not None:
+                    want = {"-Infinity": ("-inf", "-math.inf", "-np.inf", "float('-inf')"), "Infinity": ("inf", "math.inf", "np.inf", "float('inf')"),
+                            "NaN": ("nan", "math.nan", "np.nan", "float('nan')")}
+                    for tok, good in want.items():
+                        got = table.get(tok)
+                        if got not in good:
+                            hook_bad = hook_bad or ("the decoder's parse_constant hook maps the token %s (what json.dumps writes for %s) to %s: a stored %s is not read back as itself"
+                                                    % (tok, good[0], got if got is not None else "None (the table has no such key)", good[0]))
+                else:
+                    hook_unknown = "decoder hook parse_constant=%s not resolved" % text(v_)
+            elif kw_.arg in ("object_hook", "object_pairs_hook", "parse_float", "parse_int", "cls"):
+                hook_unknown = hook_unknown or "decoder hook %s=%s: what is read back is what the hook makes of the stored value" % (kw_.arg, text(kw_.value))
+    if hook_bad:
+        ctx.violated("R3", C, where(mod, fn), hook_bad, key="rebuild")
+    elif hook_unknown:
+        ctx.inconclusive("R3", C, where(mod, fn), hook_unknown, key="rebuild")
+    else:
+        ctx.check3(True if ok else None, "R3", C, where(mod, fn), "individuals rebuilt through Individual.from_dict(json.loads(payload)) and appended to problem.individuals",
+                   unknown_detail="reconstruction of the individuals not recognised", key="rebuild")
     # problem definition: written and read back
     cs = cls.methods.get("_create_structure")
     wrote = text(cs) if cs else ""
